@@ -21,6 +21,15 @@
 (*        writes into a stream whose payload could not be encoded);         *)
 (*        runs of pings are collapsed to one token by the tokeniser;        *)
 (*        rem = Tok lines left in this stream, this one included            *)
+(*   {"e":"Deadline","k":"-","at":C}                                        *)
+(*        the request context was cancelled SERVER-SIDE (a cancelling /     *)
+(*        timeout middleware around handler.Server; the client stays        *)
+(*        connected) inside the source's call number C + 1, i.e. after it   *)
+(*        had produced C payloads: Stream's Deadline at got = C, mpc = recv.*)
+(*        The line stands before the first token that can only have been    *)
+(*        written afterwards (sse: right after `next C`; mm: before the     *)
+(*        part that carries the first payload id >= C).  Deadline is never  *)
+(*        a silent step: only a logged cancellation is one.                 *)
 (*   {"e":"End","eof":"clean"|"cut"|"broken","produced":P}                  *)
 (*        clean: the body ended with the terminating chunk;                 *)
 (*        cut: the harness's client closed the connection on purpose;       *)
@@ -92,7 +101,7 @@ TSkip ==
   /\ UNCHANGED <<rvars, failAt, req, crashed, cur, garbled, sdisc>>
 
 Silent ==
-  /\ \/ MWriteBegin \/ MFlushBegin \/ MFlushEnd \/ MStartKA \/ MRecv \/ MRecvNil \/ MReset \/ MClose
+  /\ \/ MWriteBegin \/ MWriteDropped \/ MFlushBegin \/ MFlushEnd \/ MStartKA \/ MRecv \/ MRecvNil \/ MReset \/ MClose
      \/ MEncodeFail \/ MPanicClose \/ MPFlushBegin \/ MPFlushEnd \/ MBlobBegin
      \/ Tick \/ KPingBegin \/ KFlushBegin \/ KFlushEnd \/ KStop
      \/ ServerCancel \/ FinBegin \/ FinEnd
@@ -117,6 +126,8 @@ TComplete == IsTok("complete") /\ ~disc /\ mtok.k = "complete" /\ MWriteEnd /\ S
 TBadEvent == IsTok("bad") /\ ~disc /\ mtok.k = "bad" /\ MWriteEnd /\ Seen("main") /\ UNCHANGED <<cur, sdisc>>
 \* the recovered panic's bare error object (both kinds)
 TBlob == IsTok("errblob") /\ ~disc /\ MBlobEnd /\ Seen("main") /\ UNCHANGED <<cur, sdisc>>
+TDeadline == /\ IsEvent("Deadline") /\ got = Trace[l].at /\ mpc = "recv"
+             /\ Deadline /\ UNCHANGED <<cur, garbled, sdisc>>
 TPing == IsTok("ping") /\ ~disc /\ KPingEnd /\ Seen("ka") /\ UNCHANGED <<cur, sdisc>>
 
 \* deviation: a write that overlapped another access, or any write after one, leaves no (intact) token
@@ -148,7 +159,9 @@ TEnd ==
   /\ CASE Trace[l].eof = "clean" ->
             /\ mpc = "returned" /\ ~disc
             /\ got = Trace[l].produced
-            /\ failAt = 0 => got = (IF kind = "sse" THEN n ELSE n + 1)
+            \* (got < n without a failure: only a source that ended on a context that was done - MRecvNil / MMRecvNil
+            \*  require it -, i.e. after a logged Deadline; a client that left has no clean end)
+            /\ (failAt = 0 /\ ~cancelled) => got = (IF kind = "sse" THEN n ELSE n + 1)
             /\ (failAt > 0 /\ kind = "sse") => got = failAt     \* the handler never asks for the payload after it
        [] Trace[l].eof = "cut" -> sdisc
        [] Trace[l].eof = "broken" -> (garbled \/ uaf)
@@ -158,7 +171,7 @@ TEnd ==
 
 \* (a dead process takes no step and writes nothing: crashed streams are reported by the harness, not validated)
 TraceNext == \/ TReset \/ TSkip
-             \/ (~crashed /\ (\/ Silent \/ TPre \/ TNext \/ TComplete \/ TPing \/ TBadEvent \/ TBlob \/ AbsorbM \/ AbsorbK \/ TJunk
+             \/ (~crashed /\ (\/ Silent \/ TDeadline \/ TPre \/ TNext \/ TComplete \/ TPing \/ TBadEvent \/ TBlob \/ AbsorbM \/ AbsorbK \/ TJunk
                               \/ TFlush(MMFlushTick) \/ TFlush(MMDoneFlush)))
              \/ TEnd
 TraceSpec == TraceInit /\ [][TraceNext]_tvars
